@@ -40,9 +40,11 @@ Split(h) == /\ Len(hist) < MaxLen /\ h \in 1..nh /\ heaps[h] # {}
                \E x \in Best(heaps[h]) :
                  IF n <= 2 THEN heaps' = [heaps EXCEPT ![h] = @ \ {x}] /\ UNCHANGED nh
                  ELSE /\ nh < MaxHeaps
-                      /\ \E lft \in SUBSET (heaps[h] \ {x}) :
-                            /\ Cardinality(lft) = LeftSize(n)
-                            /\ heaps' = [heaps EXCEPT ![h] = (@ \ {x}) \ lft, ![nh + 1] = lft]
+                      \* (which tasks form the left subtree is not constrained; the behaviour generator takes the
+                      \*  LeftSize(n) smallest ones - the trace specification reads the real partition from the log)
+                      /\ LET rest == heaps[h] \ {x}
+                             lft == {y \in rest : Cardinality({z \in rest : z < y}) < LeftSize(n)}
+                         IN heaps' = [heaps EXCEPT ![h] = rest \ lft, ![nh + 1] = lft]
                       /\ nh' = nh + 1
 Next == \/ \E h \in H, x \in Items : Insert(h, x)
         \/ \E h \in H : Remove(h)
